@@ -152,7 +152,7 @@ Definition obs_of (cid : N) (key : string) (xnames : list string) (r : option ro
   let c0 := mkCtx 0 0 0 in
   mkObs (kr_resp (kstep c0 KGetRaw r))
         (kr_resp (kstep c0 KGetExpiry r))
-        (kr_resp (kstep c0 (KGetWithXattrs (xnames ++ ["$document"])) r))
+        (kr_resp (kstep c0 (KGetWithXattrs (xnames ++ ["$document"; "$document.revid"])) r))
         (match kr_resp (kstep c0 KExists r) with RBool b => b | _ => false end)
         (match r with Some r0 => Some (as_feed_event (cid - 1) key (event_of_row r0)) | None => None end).
 
